@@ -233,6 +233,14 @@ def build_case(rng, api, nm, ndest, roots, subsets, nulls_ok=True, probe=None, g
                 acp=acp, cli_given=cli_given, clif=clif, cli_pos=rng.choice(["front", "back"]), cli=cli,
                 unrooted=unrooted, probe=None, nulls=sorted(set(nulls)), falsy=sorted(set(falsy_at.values())))
     case["pre"] = None
+    case["sd_more"] = []
+    if api == "ap" and via != "none" and in_dflt and rng.random() < 0.4:
+        more = {}
+        for p, f in leaves:
+            if "dflt" in subsets[p] and p[0] in (dflt or {}) and rng.random() < 0.6:
+                put(more, p, val(p, f, 3, "dflt"))
+        if more:
+            case["sd_more"] = [more]  # a second parser.set_defaults(dest={..}) after the first default layer
     if probe:
         apply_probe(rng, case, probe)
     if (case["ctor"] or case["clif"]) and rng.random() < 0.3:
@@ -561,17 +569,43 @@ def class_source(roots):
     return "\n".join(lines + done)
 
 
-def _tree_of(obj):
-    """a parsed / default dataclass instance as a JSON tree: dataclass and dict -> dict, None -> None, int/str kept"""
+class NotCanonical(Exception):
+    """the observed object has no canonical form in this property's vocabulary: its own outcome class, never confused
+    with a TypeError of the implementation"""
+
+
+def _plain(obj):
+    """a value held by a field (or a raw document): None / int / str exactly (bool, float, tuple, ... are kept apart by
+    refusing them), dict with str keys recursively"""
+    if obj is None or type(obj) in (int, str):
+        return obj
+    if type(obj) is dict and all(type(k) is str for k in obj):
+        return {k: _plain(v) for k, v in obj.items()}
+    raise NotCanonical(f"{type(obj).__name__}")
+
+
+def _tree_of(obj, node=None, ns=None, optional=False):
+    """a parsed / default dataclass instance as a JSON tree.  With `node` (the declared dataclass) the instance must be of
+    exactly the class declared at that position - a raw dict, a same-named other class or a subclass is not an instance of it -
+    and hold exactly its fields; an Optional member may be None."""
     import dataclasses
 
-    if obj is None or (isinstance(obj, (int, str)) and not isinstance(obj, bool)):
-        return obj
-    if dataclasses.is_dataclass(obj) and not isinstance(obj, type):
-        return {f.name: _tree_of(getattr(obj, f.name)) for f in dataclasses.fields(obj)}
-    if isinstance(obj, dict) and all(isinstance(k, str) for k in obj):
-        return {k: _tree_of(v) for k, v in obj.items()}
-    raise TypeError(f"unrepresentable value {type(obj).__name__}")
+    if node is None:
+        if dataclasses.is_dataclass(obj) and not isinstance(obj, type):
+            return {f.name: _tree_of(getattr(obj, f.name)) for f in dataclasses.fields(obj)}
+        return _plain(obj)
+    if obj is None and optional:
+        return None
+    if type(obj) is not ns[node["cname"]]:
+        raise NotCanonical(f"{type(obj).__name__}-where-{node['cname']}-declared")
+    names = [f.name for f in dataclasses.fields(obj)]
+    if names != [f["name"] for f in node["fields"]] or any(not hasattr(obj, n) for n in names):
+        raise NotCanonical("fields-differ")
+    out = {}
+    for f in node["fields"]:
+        v = getattr(obj, f["name"])
+        out[f["name"]] = _tree_of(v, f["cls"], ns, bool(f.get("optional"))) if "cls" in f else _plain(v)
+    return out
 
 
 def _instance(ns, node, doc):
@@ -681,6 +715,7 @@ def run_impl(cases):
                 seen["sdefs"] = [{d: _tree_of(i)} for d, i in insts.items()]
             elif case["via"] == "sd_dict":
                 seen["sdefs"] = [{d: copy.deepcopy(v)} for d, v in case["dflt"].items()]
+            seen["sdefs"] = seen["sdefs"] + [{d: copy.deepcopy(v)} for more in case.get("sd_more", []) for d, v in more.items()]
             kw = {}
             if case["nm"] is not None:
                 kw["nested_mode"] = NestedMode[case["nm"]]
@@ -693,7 +728,7 @@ def run_impl(cases):
                 if case["api"] == "parse":
                     r0 = roots[0]
                     res = sp.parse(ns[r0["cls"]["cname"]], config_path=config_path, args=argv, default=insts.get(r0["dest"]), **kw)
-                    return {r0["dest"]: _tree_of(res)}
+                    return {r0["dest"]: _tree_of(res, r0["cls"], ns)}
                 parser = ArgumentParser(config_path=config_path, **kw)
                 for r in roots:
                     if case["via"] == "instance" and r["dest"] in insts:
@@ -706,8 +741,11 @@ def run_impl(cases):
                 elif case["via"] == "sd_dict":
                     for d, v in case["dflt"].items():
                         parser.set_defaults(**{d: copy.deepcopy(v)})  # the implementation may write into what it is given
+                for more in case.get("sd_more", []):
+                    for d, v in more.items():
+                        parser.set_defaults(**{d: copy.deepcopy(v)})
                 nsp = parser.parse_args(argv)
-                return {r["dest"]: _tree_of(getattr(nsp, r["dest"])) for r in roots}
+                return {r["dest"]: _tree_of(getattr(nsp, r["dest"]), r["cls"], ns) for r in roots}
 
             pre_outcome = None
             if pre:
@@ -822,6 +860,39 @@ def verdict(case, obs):
     return ("leaves", out)
 
 
+def provenance(case, obs, p, f, got):
+    """which source holds exactly the observed value at p (markers are distinct per leaf, layer and file): the evidence that
+    tells one cause of a lost mention from another"""
+    ctor = [by_dest(case, r) for r in obs["ctor"]]
+    clif = [by_dest(case, r) for r in obs["clif"]] if case["cli_given"] else []
+    if got[0] != "at":
+        return "absent"
+    for name, group in (("cli", [case["cli"]]), ("clif", clif), ("ctor", ctor), ("sdefs", obs["sdefs"]), ("inst", [obs["inst"]])):
+        if any(subtree(p, d) == got for d in group):
+            return name
+    if f["def"] != ["missing"] and got == ("at", None if f["def"] == ["none"] else f["def"][1]):
+        return "def"
+    pre = case.get("pre") or {}
+    if any(subtree(p, by_dest_doc(case, d)) == got for name in ("ctor", "clif") for d in pre.get(name, [])):
+        return "earlier-content-of-the-file"
+    return "other"
+
+
+def by_dest_doc(case, doc):
+    return doc  # `pre` documents are stored keyed by destination, like case["ctor"][j]["doc"]
+
+
+def null_fallback(case, obs, p, f):
+    """what FieldWrapper.default yields when _default is None (the mechanism of the listed null findings): the default
+    instance's attribute when add_arguments got one, else the definition default; never what an earlier document said"""
+    s = subtree(p, obs["inst"])
+    if s[0] == "at":
+        return "inst", s
+    if f["def"] != ["missing"]:
+        return "def", ("at", None if f["def"] == ["none"] else f["def"][1])
+    return "def", ("at", None)
+
+
 def judge(case, obs):
     """-> None | (reason, signature)"""
     o = obs["obs"]
@@ -842,6 +913,8 @@ def judge(case, obs):
     if v[0] == "unspecified":
         return None
     if v[0] == "mustfail":
+        if o[0] == "exit" and o[1] == 0:
+            return (f"a key that names no field ({case['probe']}) ended the parse with exit status 0, which is not an error", f"unknown-key-exit0:{case['probe']}")
         if o[0] == "ok":
             return (f"a key that names no field ({case['probe']}) was silently dropped; result {o[1]}", f"unknown-key-dropped:{case['probe']}")
         return None
@@ -863,9 +936,15 @@ def judge(case, obs):
         if got != m and got[0] == "absent":
             return (f"field {'.'.join(p)} ({f['kind']}): `{src}` gives it {m[1]!r}, but its Optional parent came back as None", f"optional-member-none:{src}")
         if got != m:
+            where = provenance(case, obs, p, f, got)
+            text = f"field {'.'.join(p)} ({f['kind']}): highest-priority source mentioning it is `{src}` with {m[1]!r}, observed {got} (the value of `{where}`)"
+            if m[1] is None and src in ("ctor", "clif", "sdefs"):
+                fb, fbv = null_fallback(case, obs, p, f)
+                if got == fbv:
+                    return (text, f"null-from-{src}-lost:fell-back-to-{fb}")
+                return (text, f"null-from-{src}-lost:got-{where}")
             kind = "null" if m[1] is None else "value"
-            return (f"field {'.'.join(p)} ({f['kind']}): highest-priority source mentioning it is `{src}` with {m[1]!r}, observed {got}",
-                    f"{kind}-from-{src}-lost")
+            return (text, f"{kind}-from-{src}-lost:got-{where}")
     return None
 
 
@@ -1002,7 +1081,11 @@ def shrink(case):
         c = copy.deepcopy(case)
         c["pre"] = None
         yield c
-    if case["via"] != "none":
+    if case.get("sd_more"):
+        c = copy.deepcopy(case)
+        c["sd_more"] = []
+        yield c
+    if case["via"] != "none" and not case.get("sd_more"):
         c = copy.deepcopy(case)
         c["via"], c["dflt"] = "none", None
         for _, f in forest_leaves(c["roots"]):
@@ -1061,7 +1144,7 @@ def shrink(case):
 
 
 def _docs_of(c):
-    return [fl["doc"] for fl in c["ctor"] + c["clif"]] + [c["cli"]] + ([c["dflt"]] if c["dflt"] is not None else [])
+    return [fl["doc"] for fl in c["ctor"] + c["clif"]] + [c["cli"]] + ([c["dflt"]] if c["dflt"] is not None else []) + list(c.get("sd_more", []))
 
 
 def _doc_paths(d, prefix=()):
